@@ -25,13 +25,19 @@ ScalarCanonAll == [a \in ScalarArgs \cup ScalarArgsSmall |->
 ScalarPy == ("int:1" :> "1") @@ ("bool:True" :> "1") @@ ("float:1.0" :> "1") @@ ("int:2" :> "2")
             @@ ("tuple:(1,)" :> "(1,)") @@ ("tuple:(True,)" :> "(1,)")
 
-ArrayArgs == {"i64:1,0", "i32:1,0", "list:1,0", "u8:1,0", "wrap:1,0", "bool:1,0", "f64:1,0", "f32:1,0", "i64:1,1"}
-ArrayArgsSmall == {"i64:1,0", "i32:1,0", "list:1,0", "bool:1,0", "f64:1,0", "i64:1,1"}
+\* "u64:big" = uint64 [2^64-1, 2^63] (not representable as int64), "ld:third" = long double [1/3, 0] (not representable as
+\* float64), "u64:1,0" = small uint64 values (representable)
+ArrayArgs == {"i64:1,0", "i32:1,0", "list:1,0", "u8:1,0", "wrap:1,0", "bool:1,0", "f64:1,0", "f32:1,0", "i64:1,1", "u64:big", "ld:third", "u64:1,0"}
+ArrayArgsSmall == {"i64:1,0", "i32:1,0", "list:1,0", "bool:1,0", "f64:1,0", "i64:1,1", "u64:big", "u64:1,0"}
 ArrayCanon == [a \in ArrayArgs |->
-    CASE a \in {"i64:1,0", "i32:1,0", "list:1,0", "u8:1,0", "wrap:1,0"} -> "int:1,0"
+    CASE a \in {"i64:1,0", "i32:1,0", "list:1,0", "u8:1,0", "wrap:1,0", "u64:1,0"} -> "int:1,0"
+      [] a \in {"u64:big", "ld:third"} -> "REJECT"
       [] a = "bool:1,0" -> "bool:1,0"
       [] a \in {"f64:1,0", "f32:1,0"} -> "float:1,0"
       [] a = "i64:1,1" -> "int:1,1"]
 \* (int, (2,), bytes) / (bool, ..) / (float, ..) are pairwise different under python ==
-ArrayPy == [c \in {"int:1,0", "bool:1,0", "float:1,0", "int:1,1"} |-> c]
+ArrayPy == [c \in {"int:1,0", "bool:1,0", "float:1,0", "int:1,1", "int:-1,min", "float:third"} |-> c]
+\* what a silent cast makes of the lossy calls (design mutant Lossy = "wrap")
+ArrayWrap == [a \in ArrayArgs |-> IF a = "u64:big" THEN "int:-1,min" ELSE IF a = "ld:third" THEN "float:third" ELSE ArrayCanon[a]]
+NoWrap == [a \in ScalarArgs \cup ScalarArgsSmall |-> ScalarCanonAll[a]]
 =============================================================================
